@@ -196,6 +196,8 @@ pub fn generate(seed: u64, thorough: bool, sink: &mut Sink) -> Vec<String> {
       let mut names: Vec<String> = vec![];
       let pat = if arity == 1 { match rng.below(4) { 0 => "sp _".to_string(), 1 => { names.push("v".into()); "sp $v".to_string() } _ => format!("sp {}", num(kind, rng.range(0, 3))) } }
                 else { format!("tup 2 {} {}", sp_gen(&mut rng, kind, &mut names, &["p", "q"]), sp_gen(&mut rng, kind, &mut names, &["p", "q"])) };
+      // the declared inputs a, b are in scope in every body, whatever the pattern binds
+      if rng.chance(1, 3) { names.push("a".into()); if arity == 2 { names.push("b".into()); } }
       arms.push(format!("{} {}", pat, gen_body(&mut rng, &names, kind)));
     }
     let how = match rng.below(10) { 0 => "arity", 1 | 2 if arity == 1 => "bcast", _ => "call" };
@@ -214,6 +216,12 @@ pub fn generate(seed: u64, thorough: bool, sink: &mut Sink) -> Vec<String> {
   let power = vec![format!("tup 2 _ {} lit {}", zero, one), format!("tup 2 $p $q bin mul var p call2 var p bin sub var q lit {}", one)];
   let gcd = vec![format!("tup 2 $p {} var p", zero), "tup 2 $p $q call2 var q bin mod var p var q".to_string()];
   let countdown = vec![format!("tup 2 {} $q var q", zero), format!("tup 2 $p $q call2 bin sub var p lit {} bin add var q lit {}", one, nu(2))];
+  // tail-recursive definitions whose bodies read a declared input the pattern does not bind: in every
+  // iteration of the tail-call loop the inputs stand for the arguments of that iteration
+  let countdown_in = vec![format!("tup 2 {} _ var b", zero), format!("tup 2 $p _ call2 bin sub var p lit {} bin add var b lit {}", one, nu(2))];
+  let gcd_in = vec![format!("tup 2 _ {} var a", zero), "tup 2 $p $q call2 var q bin mod var p var q".to_string()];
+  let factacc_in = vec![format!("tup 2 {} _ var b", zero), format!("tup 2 $p _ call2 bin sub var p lit {} bin mul var b var p", one)];
+  let sumdown_in = vec![format!("sp {} lit {}", zero, zero), format!("sp _ bin add var a call1 bin sub var a lit {}", one)];
   let sumto = vec![format!("sp {} lit {}", zero, zero), format!("sp $v bin add var v call1 bin sub var v lit {}", one)];
   let reps = if thorough { 12 } else { 2 };
   for _ in 0..reps {
@@ -223,6 +231,10 @@ pub fn generate(seed: u64, thorough: bool, sink: &mut Sink) -> Vec<String> {
     for _ in 0..20 { let a = rng.range(0, 1000); let b = rng.range(0, 1000); cases.push(format!("fn\t2\tu64\t{}\tcall\t{},{}", gcd.join(";;"), nu(a), nu(b))); sink.hit("rec:gcd"); }
     for d in [0i64, 1, 2, 10, 1000, 20000, 100000] { let d = if d > 10 { d + rng.range(0, 50) } else { d }; cases.push(format!("fn\t2\tu64\t{}\tcall\t{},{}", countdown.join(";;"), nu(d), nu(0))); sink.hit("rec:countdown-tail"); }
     for d in [0i64, 1, 5, 60, 150] { cases.push(format!("fn\t1\tu64\t{}\tcall\t{}", sumto.join(";;"), nu(d))); sink.hit("rec:sum-nontail"); }
+    for d in [0i64, 1, 2, 7, 300] { cases.push(format!("fn\t2\tu64\t{}\tcall\t{},{}", countdown_in.join(";;"), nu(d), nu(rng.range(0, 5)))); sink.hit("rec:inputs-in-body"); }
+    for _ in 0..8 { let a = rng.range(1, 500); let b = rng.range(1, 500); cases.push(format!("fn\t2\tu64\t{}\tcall\t{},{}", gcd_in.join(";;"), nu(a), nu(b))); sink.hit("rec:inputs-in-body"); }
+    for x in [0i64, 1, 2, 5, 12] { cases.push(format!("fn\t2\tu64\t{}\tcall\t{},{}", factacc_in.join(";;"), nu(x), nu(1))); sink.hit("rec:inputs-in-body"); }
+    for x in [0i64, 1, 4, 30] { cases.push(format!("fn\t1\tu64\t{}\tcall\t{}", sumdown_in.join(";;"), nu(x))); sink.hit("rec:inputs-in-body"); }
     // reversed arm order: the general arm first
     for x in [0i64, 3] { let mut r = fact.clone(); r.reverse(); cases.push(format!("fn\t1\tu64\t{}\tcall\t{}", r.join(";;"), nu(x))); sink.hit("rec:reversed"); }
     for x in [0i64, 4] { let mut r = countdown.clone(); r.reverse(); cases.push(format!("fn\t2\tu64\t{}\tcall\t{},{}", r.join(";;"), nu(x), nu(0))); sink.hit("rec:reversed"); }
